@@ -26,6 +26,7 @@ Cx1(c) == [cs |-> <<c>>, cb |-> <<>>]
 PoolSet == {Cx1(<<AttrS(nm, "ex", <<>>, "n")>>) : nm \in {T, TypeAttr}}
       \cup {Cx1(<<AttrS(nm, op, val, fl)>>) : nm \in {T, TypeAttr}, op \in Ops, val \in Operands, fl \in Flags}
       \cup {Cx1(<<[k |-> "id", v |-> v]>>) : v \in {<<120>>, <<88>>, <<120,121>>, <<120,32,121>>}}
+      \cup {Cx1(<<[k |-> "id", v |-> <<120>>], [k |-> "id", v |-> v]>>) : v \in {<<120>>, <<120,121>>}}     \* #x#x, #x#xy: every id of a compound must hold
       \cup {Cx1(<<[k |-> "class", v |-> v]>>) : v \in {<<120>>, <<121>>, <<88>>, <<120,121>>, <<120,45,121>>}}
       \cup {Cx1(<<[k |-> "class", v |-> <<120>>], [k |-> "class", v |-> <<121>>]>>)}
 Pool == SetToSeq(PoolSet)
